@@ -29,11 +29,18 @@ func Resolve(b gen.Book) Resolved {
 		def[r.Name] = r
 	}
 	memo := map[string]map[string]*big.Rat{}
+	visiting := map[string]bool{}
 	var val func(name string) map[string]*big.Rat
 	val = func(name string) map[string]*big.Rat {
 		if m, ok := memo[name]; ok {
 			return m
 		}
+		if visiting[name] {
+			// a generator mistake, not a property violation: reported as a harness error by the caller
+			panic("model.Resolve: the generated book is cyclic at " + name)
+		}
+		visiting[name] = true
+		defer delete(visiting, name)
 		rec, ok := def[name]
 		if !ok {
 			return map[string]*big.Rat{name: big.NewRat(1, 1)}
